@@ -486,3 +486,87 @@ def normalise_loops(tree: ast.Module) -> int:
     if t.n:
         ast.fix_missing_locations(tree)
     return t.n
+
+
+# ---------------------------------------------------------------------------------------------------------------------
+# table-driven search loops
+
+
+class _TableSearch(ast.NodeTransformer):
+    """`for a, b in TABLE: if test(a): BODY(b); break` [`else: E`] over a small literal table (a module-level tuple / list of
+    tuples, or a literal in place) is the if / elif chain over its rows: unroll it, so that table-driven and spelled-out
+    dispatch are one shape."""
+
+    MAX_ROWS = 12
+
+    def __init__(self, tree):
+        self.n = 0
+        self.tables = {}
+        for st in tree.body:
+            if isinstance(st, ast.Assign) and len(st.targets) == 1 and isinstance(st.targets[0], ast.Name) and isinstance(st.value, (ast.Tuple, ast.List)):
+                self.tables[st.targets[0].id] = st.value
+        # a table that is re-assigned is not a constant
+        counts = {}
+        for n in ast.walk(tree):
+            if isinstance(n, ast.Name) and isinstance(n.ctx, ast.Store):
+                counts[n.id] = counts.get(n.id, 0) + 1
+        self.tables = {k: v for k, v in self.tables.items() if counts.get(k, 0) == 1}
+
+    def visit_For(self, node: ast.For):
+        self.generic_visit(node)
+        it = node.iter
+        rows = None
+        if isinstance(it, ast.Name) and it.id in self.tables:
+            rows = self.tables[it.id].elts
+        elif isinstance(it, (ast.Tuple, ast.List)):
+            rows = it.elts
+        if rows is None or not (0 < len(rows) <= self.MAX_ROWS):
+            return node
+        if len(node.body) != 1 or not isinstance(node.body[0], ast.If) or node.body[0].orelse:
+            return node
+        inner = node.body[0]
+        if not inner.body or not isinstance(inner.body[-1], ast.Break):
+            return node
+        for st in inner.body[:-1]:
+            for x in _walk_loop_own(st):
+                if isinstance(x, (ast.Break, ast.Continue)):
+                    return node
+        tgt = node.target
+        names = [tgt.id] if isinstance(tgt, ast.Name) else [e.id for e in tgt.elts if isinstance(e, ast.Name)] if isinstance(tgt, (ast.Tuple, ast.List)) else None
+        if not names or (isinstance(tgt, (ast.Tuple, ast.List)) and len(names) != len(tgt.elts)):
+            return node
+        # targets must not be assigned inside the body
+        for st in inner.body:
+            for x in _walk_own(st):
+                if isinstance(x, ast.Name) and isinstance(x.ctx, ast.Store) and x.id in names:
+                    return node
+        chain = None
+        for row in reversed(rows):
+            if isinstance(tgt, ast.Name):
+                vals = [row]
+            else:
+                if not isinstance(row, (ast.Tuple, ast.List)) or len(row.elts) != len(names):
+                    return node
+                vals = row.elts
+            mp = dict(zip(names, vals))
+
+            class Sub(ast.NodeTransformer):
+                def visit_Name(self, n):
+                    if isinstance(n.ctx, ast.Load) and n.id in mp:
+                        return ast.copy_location(copy.deepcopy(mp[n.id]), n)
+                    return n
+
+            test = Sub().visit(copy.deepcopy(inner.test))
+            body = [Sub().visit(copy.deepcopy(s)) for s in inner.body[:-1]] or [ast.copy_location(ast.Pass(), inner)]
+            orelse = [chain] if chain is not None else copy.deepcopy(node.orelse)
+            chain = ast.copy_location(ast.If(test=test, body=body, orelse=orelse), inner)
+        self.n += 1
+        return chain
+
+
+def unroll_table_searches(tree: ast.Module) -> int:
+    t = _TableSearch(tree)
+    t.visit(tree)
+    if t.n:
+        ast.fix_missing_locations(tree)
+    return t.n
